@@ -219,8 +219,32 @@ func buildReplies(toks []string) (msgs [][]byte, nonces [][]byte, capMask []byte
 	return msgs, nonces, capMask, packSize, true
 }
 
+// loginFields splits a login line; a token `cut:<k>` (the replies are packetised every k bytes) is taken
+// out of the reply tokens
+func loginFields(line string) (f []string, cut int) {
+	for _, t := range strings.Fields(line) {
+		if strings.HasPrefix(t, "cut:") {
+			cut, _ = strconv.Atoi(t[4:])
+			continue
+		}
+		f = append(f, t)
+	}
+	return
+}
+
+func cutsEvery(n, k int) []int {
+	var cuts []int
+	if k <= 0 {
+		return nil
+	}
+	for c := k; c < n; c += k {
+		cuts = append(cuts, c)
+	}
+	return cuts
+}
+
 func runLogin(line string, timeout time.Duration) (*loginRun, bool) {
-	f := strings.Fields(line)
+	f, cutK := loginFields(line)
 	if len(f) < 4 {
 		return nil, false
 	}
@@ -271,12 +295,12 @@ func runLogin(line string, timeout time.Duration) (*loginRun, bool) {
 					case <-time.After(time.Millisecond):
 					}
 				}
-				mc.feed(packetize(m, nil, 4, 0))
+				mc.feed(packetize(m, cutsEvery(len(m), cutK), 4, 0))
 			}
 		}()
 	} else {
 		for _, m := range msgs {
-			mc.feed(packetize(m, nil, 4, 0))
+			mc.feed(packetize(m, cutsEvery(len(m), cutK), 4, 0))
 		}
 	}
 	lerr := ch.Login(ctx, cfg)
@@ -405,7 +429,7 @@ func acceptsScript(enc, hostlen, pwlen int, toks []string) bool {
 }
 
 func loginImpl(line string) string {
-	f := strings.Fields(line)
+	f, _ := loginFields(line)
 	r, ok := runLogin(line, 250*time.Millisecond)
 	if !ok {
 		return "bad-op"
@@ -528,6 +552,14 @@ func loginGen(tier string, rng *mrand.Rand, emit func(Case)) {
 			withEnv := append([]string{}, base.toks...)
 			withEnv = append(append(withEnv[:len(withEnv)-2:len(withEnv)-2], fmt.Sprintf("env:%d", sz)), base.toks[len(base.toks)-2:]...)
 			emitS("valid-env", base.enc, 8, 12, withEnv)
+		}
+		// every packetisation of the replies: the valid scripts (with and without the packet size
+		// announcement) cut every k bytes, k = 1..16 and some larger ones
+		for _, k := range []int{1, 2, 3, 4, 5, 6, 7, 8, 9, 10, 11, 12, 13, 14, 15, 16, 23, 64, 200} {
+			emitS("valid-cut", base.enc, 8, 12, append([]string{fmt.Sprintf("cut:%d", k)}, base.toks...))
+			withEnv := append([]string{fmt.Sprintf("cut:%d", k)}, base.toks...)
+			withEnv = append(append(withEnv[:len(withEnv)-2:len(withEnv)-2], "env:2048"), base.toks[len(base.toks)-2:]...)
+			emitS("valid-cut-env", base.enc, 8, 12, withEnv)
 		}
 		// single-edit mutants: delete, duplicate, swap, replace, insert
 		for i := range base.toks {
